@@ -38,17 +38,31 @@ class DM14Server:
         self.status = j1939.Dm15Status.PROCEED.value
         self.direct = 0
 
-    def _wait_for_data(self) -> None:
+    def _wait_for_data(self) -> bool:
         """
         Determines whether to send data or wait to receive data based on the command type.
         If the command is a read command, then the data requested is sent.
+        :return: True if the data of a write command is to be awaited
         """
+        # what happens after the DM15 is decided before it is sent: the requester's answer
+        # (the DM16 of a write) may be processed before the sending call has returned
+        send_state = self.state
+        is_read = (
+            self.command is j1939.Command.READ.value
+            and send_state == ResponseState.SEND_PROCEED
+        )
+        is_write = (
+            self.command is j1939.Command.WRITE.value
+            and send_state == ResponseState.SEND_PROCEED
+        )
         self._ca.subscribe(self._parse_dm16)
+        if is_write:
+            self.state = ResponseState.WAIT_FOR_DM16
         self._send_dm15(
             self.length,
             self.direct,
             self.status,
-            self.state,
+            send_state,
             self.object_count,
             self.sa,
             j1939.ParameterGroupNumber.PGN.DM15,
@@ -56,10 +70,7 @@ class DM14Server:
             self.edcp,
         )
 
-        if (
-            self.command is j1939.Command.READ.value
-            and self.state == ResponseState.SEND_PROCEED
-        ):
+        if is_read:
             self._ca.unsubscribe(self._parse_dm16)
             self._send_dm16()
             if (len(self.data)) <= 7:
@@ -77,16 +88,12 @@ class DM14Server:
                     self.error,
                     self.edcp,
                 )
-        elif (
-            self.command is j1939.Command.WRITE.value
-            and self.state == ResponseState.SEND_PROCEED
-        ):
-            self.state = ResponseState.WAIT_FOR_DM16
-        else:
+        elif not is_write:
             self._ca.unsubscribe(self._parse_dm16)
             self.state = ResponseState.IDLE
             self.sa = None
             self.address = None
+        return is_write
 
     def parse_dm14(
         self, priority: int, pgn: int, sa: int, timestamp: int, data: bytearray
@@ -370,8 +377,7 @@ class DM14Server:
             self.state = ResponseState.SEND_PROCEED
         else:
             self.state = ResponseState.SEND_ERROR
-        self._wait_for_data()
         mem_data = None
-        if self.state == ResponseState.WAIT_FOR_DM16:
+        if self._wait_for_data():
             mem_data = self.data_queue.get(block=True, timeout=max_timeout)
         return mem_data
